@@ -308,15 +308,16 @@ theorem reopen_rw_effect (h : H) (s : Store) (inv : RwInv h s) {fmt : Nat} {ch s
       absOf h' s' = { frames := (absOf h s).frames, rpos := 0, wpos := (absOf h s).frames.length } ∧
       h'.frames = h.frames ∧ h'.ch = h.ch ∧ h'.enc = h.enc := by
   obtain ⟨R, W, F, hdr, D, v⟩ := inv
-  have hfin : ∀ h' s', ReopenedRw h F D h' s' → RwInv h' s' ∧
+  have hfin : ∀ h' s', ReopenedRw h.enc h.ch F D h' s' → RwInv h' s' ∧
       absOf h' s' = { frames := (absOf h s).frames, rpos := 0, wpos := (absOf h s).frames.length } ∧
       h'.frames = h.frames ∧ h'.ch = h.ch ∧ h'.enc = h.enc := by
     intro h' s' r
-    refine ⟨r.inv, by rw [r.abs, v.abs]; simp only; rw [v.nframes], ?_, r.ch, r.enc⟩
+    refine ⟨r.inv, by rw [r.abs, v.abs]; simp only; rw [v.nframes]; rfl, ?_, r.ch, r.enc⟩
     have := r.inv.nframes
     rw [r.abs] at this
     simp only at this
-    rw [v.nframes] at this
+    have e : (groups (h.enc.nbytes * h.ch) D).length = F := v.nframes
+    rw [e] at this
     rw [← this, v.frames]
   cases hc : h.container with
   | raw =>
